@@ -1,5 +1,6 @@
 (** non-vacuity for C20: a concrete schema (interface, union, enum, lists), a document (aliased
-    __typename, two inline fragments on one type, an inline fragment without type condition, a
+    __typename, two inline fragments on one type, response keys selected twice (a leaf and a
+    composite field with different sub-selections), an inline fragment without type condition, a
     named fragment with a nested fragment, a union type condition on an object field) and a
     response (two concrete types and null in a list, null at a nullable leaf, a non-integral
     float) that meet every hypothesis of C20_gen_wf_partial and C20_gen_decodes. *)
